@@ -65,6 +65,7 @@ pub struct Conn {
 pub fn connect() -> Conn {
     let (client, server) = pipe::pair();
     let (conn, ldap) = LdapConnAsync::verif_from_io(Box::new(client));
+    crate::report::watch_connection(ldap.verif_gauges());
     let driver = tokio::spawn(async move {
         match Caught::new(conn.drive()).await {
             Ok(Ok(())) => Ok(Ok(())),
